@@ -1,6 +1,6 @@
 (* C03 - Exporters are driven one call at a time and within the configured batch bounds (batch processors).
    Property theorems only; proofs are in Batch/Proofs*.v and Batch/Theorems.v. *)
-From V Require Import Batch.Model Batch.ProofsA Batch.ProofsB Batch.Theorems.
+From V Require Import Batch.Model Batch.ProofsA Batch.ProofsB Batch.Theorems Batch.Simple Batch.SimpleProofs Batch.Periodic Batch.PeriodicProofs.
 From Coq Require Import List Arith.
 Import ListNotations.
 
@@ -19,6 +19,30 @@ Theorem c03_export_never_overlaps : forall q b s t e s', reachable q b s -> acce
   end.
 Proof. exact export_never_overlaps. Qed.
 Print Assumptions c03_export_never_overlaps.
+
+(* simple processors called from any number of threads (Batch/Simple.v) *)
+Theorem c03_simple_lock_is_mutex : forall s t1 t2, sreachable s ->
+  holds (spc_of s t1) = true -> holds (spc_of s t2) = true -> t1 = t2.
+Proof. exact simple_lock_is_mutex. Qed.
+Print Assumptions c03_simple_lock_is_mutex.
+
+Theorem c03_simple_export_never_overlaps : forall s t ids s', sreachable s ->
+  saccept s (t, SExpBegin ids) = Some s' -> sfly s = None /\ sfly s' = Some t.
+Proof. exact simple_export_never_overlaps. Qed.
+Print Assumptions c03_simple_export_never_overlaps.
+
+Theorem c03_simple_nonvacuous :
+  exists s, srun sinit [(1, SCallOnEnd 7); (2, SCallOnEnd 8); (1, SXchgFlag false); (2, SXchgFlag true); (2, SLdFlag true);
+                        (1, SExpBegin [7]); (2, SSpin); (1, SExpEnd true); (1, SStFlag0); (2, SLdFlag false);
+                        (2, SXchgFlag false); (2, SExpBegin [8]); (1, SRetOnEnd 7)] = Some s /\ sexported s = [7; 8].
+Proof. exact simple_demo. Qed.
+Print Assumptions c03_simple_nonvacuous.
+
+(* periodic exporting metric reader racing ForceFlush and Shutdown (Batch/Periodic.v) *)
+Theorem c03_periodic_export_never_overlaps : forall s t n s', rreachable s ->
+  raccept s (t, RExpBegin n) = Some s' -> r_fly s = None.
+Proof. exact periodic_export_never_overlaps. Qed.
+Print Assumptions c03_periodic_export_never_overlaps.
 
 Theorem c03_nonvacuous : exists s, run (init 1 1) demo_trace = Some s /\ In (2, 1, true) (fl_done s) /\ sh_done s <> [] /\
   dropped s = [12] /\ exported s = [[11]].
